@@ -171,8 +171,42 @@ let run_fq (args : string list) : string =
   let ls = String.concat "," (List.map (fun (k, n) -> Printf.sprintf "%d:%d" (int_of_n k) (int_of_nat n)) left) in
   String.concat " " (List.rev !out @ ["left=" ^ (if ls = "" then "-" else ls)])
 
+(* try_send: same case syntax as harness/src/ts.rs *)
+let kind_code = function "BrokenPipe" -> 1 | "ConnectionReset" -> 2 | "ConnectionAborted" -> 3 | "TimedOut" -> 4 | "Other" -> 5 | "UnexpectedEof" -> 6 | "WouldBlock" -> 7 | _ -> 5
+let kind_name = function 1 -> "BrokenPipe" | 2 -> "ConnectionReset" | 3 -> "ConnectionAborted" | 4 -> "TimedOut" | 5 -> "Other" | 6 -> "UnexpectedEof" | 7 -> "WouldBlock" | _ -> "Other"
+let huge = n_of_int (1 lsl 62)
+let parse_ans (t : string) : TrySend.wr_ans =
+  if t = "p" then TrySend.WPending else if t = "z" then TrySend.WZero else if t = "a" then TrySend.Wrote huge
+  else if t.[0] = 'w' then TrySend.Wrote (n_of_int (int_of_string (String.sub t 1 (String.length t - 1))))
+  else if String.length t > 2 && String.sub t 0 2 = "e:" then TrySend.WErr (n_of_int (kind_code (String.sub t 2 (String.length t - 2))))
+  else failwith ("wplan token " ^ t)
+
+let fnv (l : coq_N list) : int =
+  List.fold_left (fun h b -> ((h lxor (int_of_n b)) * 0x01000193) land 0xffffffff) 0x811c9dc5 l
+
+let pattern i len = List.init len (fun j -> n_of_int ((i * 37 + j * 11 + 5) land 0xff))
+
+let run_ts (args : string list) : string =
+  match split_ops args with
+  | [] -> "empty"
+  | head :: ops ->
+    let plan = match opt_val "plan=" head with
+      | Some p -> List.map parse_ans (List.filter (fun x -> x <> "") (String.split_on_char ',' p)) | None -> [] in
+    let dflt = match opt_val "dflt=" head with Some d -> parse_ans d | None -> TrySend.Wrote huge in
+    let lens = List.filter_map (fun o -> match o with ["send"; l] -> Some (int_of_string l) | _ -> None) ops in
+    let encs = List.mapi (fun i l -> Codec.encode_frames [pattern i l]) lens in
+    let (rs, s) = TrySend.try_sends (TrySend.sink0 { TrySend.t_plan = plan; TrySend.t_dflt = dflt }) encs in
+    let rstr = List.map (function
+      | TrySend.TsOk -> "ok" | TrySend.TsFull -> "err:BufferFull"
+      | TrySend.TsErr k -> "err:Codec.Io." ^ kind_name (int_of_n k)
+      | TrySend.TsEof -> "err:Codec.Io.UnexpectedEof") rs in
+    let all = s.TrySend.k_written @ s.TrySend.k_buf in
+    String.concat " " (rstr @ [Printf.sprintf "written=%d buffered=%d hwm=%d sum=%08x" (List.length s.TrySend.k_written)
+                                 (List.length s.TrySend.k_buf) (int_of_n Src.hwm) (fnv all)])
+
 let run_case kind (args : string list) : string =
   match kind with
+  | "ts" -> run_ts args
   | "fq" -> run_fq args
   | "sock" -> (try run_sock args with Unsupported s -> "model-unsupported " ^ s)
   | "repsplit" ->
